@@ -123,6 +123,13 @@ class ReadPrecomputedMesh(Contract):
         from neuroglancer_scripts.mesh import InvalidMeshDataError
         return [(InvalidMeshDataError, True)]
 
+    bounded_bound = "native probe set: 16 byte strings (index == N in each column, N == 0 with a triangle, truncations, trailing bytes)"
+
+    def bounded_models(self, cfg, tier):
+        # fallback when the unit is undecided (e.g. the bound check rewritten with a reduction the executor does not model)
+        yield {"data_len": 0}
+        yield {"data_len": 17}
+
     def replay(self, model, cfg, ob_name):
         import io
         import struct
@@ -130,7 +137,14 @@ class ReadPrecomputedMesh(Contract):
         ln = max(0, min(model.get("data_len", 0), 200))
         f = None
         cases = [bytes(ln), struct.pack("<I", 1) + bytes(12) + struct.pack("<III", 0, 1, 0), struct.pack("<I", 2)[:3],
-                 struct.pack("<I", 1) + bytes(12) + struct.pack("<III", 0, 0, 0) + b"x"]
+                 struct.pack("<I", 1) + bytes(12) + struct.pack("<III", 0, 0, 0) + b"x",
+                 struct.pack("<I", 0) + struct.pack("<III", 0, 0, 0)]
+        for n_ in (1, 3):
+            for col in range(3):
+                for big in (n_, n_ + 1, 0xFFFFFFFF):
+                    tri = [0, 0, 0]
+                    tri[col] = big
+                    cases.append(struct.pack("<I", n_) + bytes(12 * n_) + struct.pack("<III", 0, 0, 0) + struct.pack("<III", *tri))
         for data in cases:
             try:
                 v, t = read_precomputed_mesh(io.BytesIO(data))
